@@ -34,8 +34,8 @@ CASES = {"quick": 250, "thorough": 6000}
 NSHARDS = 16
 
 CONSTRUCTS = ["new", "unannotated", "ctxcopy", "old", "none", "disabled", "dataclass", "method", "classmethod", "staticmethod", "property", "with", "recursion", "generator", "coroutine", "nonbinding", "wrapstack"]
-EXITS = ["return", "Exception", "KeyboardInterrupt", "GeneratorExit", "SystemExit"]
-RAISE = {"Exception": "raise ValueError('x')", "KeyboardInterrupt": "raise KI()", "GeneratorExit": "raise GeneratorExit()", "SystemExit": "raise SE(3)"}
+EXITS = ["return", "Exception", "KeyboardInterrupt", "GeneratorExit", "SystemExit", "BadNotes"]
+RAISE = {"Exception": "raise ValueError('x')", "KeyboardInterrupt": "raise KI()", "GeneratorExit": "raise GeneratorExit()", "SystemExit": "raise SE(3)", "BadNotes": "raise BADNOTES[len(LOG) % 3]()"}
 
 
 def shards(tier):
@@ -44,7 +44,7 @@ def shards(tier):
 
 def required_counters(tier):
     d = {f"pair.{c}.{e}": 1 for c in CONSTRUCTS if c != "nonbinding" for e in EXITS}
-    d.update({"programs": 1000, "observations": 10000, "depth>=3": 200, "argcheck.callee": 100, "argcheck.caller_after": 100, "argcheck.no_arg_in_frame": 100, "toplevel_checks": 200, "pair.nonbinding.TypeError": 50, "programs.optimized_interpreter": 20})
+    d.update({"programs": 1000, "observations": 10000, "depth>=3": 200, "argcheck.callee": 100, "argcheck.caller_after": 100, "argcheck.no_arg_in_frame": 100, "toplevel_checks": 200, "pair.nonbinding.TypeError": 50, "programs.optimized_interpreter": 20, "calls_made_by_exec_inside_an_open_call": 100})
     return d
 
 
@@ -57,6 +57,19 @@ LOG = []
 CTX = {}
 class KI(KeyboardInterrupt): pass
 class SE(SystemExit): pass
+class BadNotesBase(Exception): pass   # exceptions to which no note can be attached
+class BN1(BadNotesBase): __notes__ = ("frozen",)
+class BN2(BadNotesBase): __notes__ = None
+class BN3(BadNotesBase):
+    def add_note(self, note): raise RuntimeError("no notes here")
+BADNOTES = (BN1, BN2, BN3)
+def EXCNAME(e):
+    # (whatever a wrapper turns such an exception into while trying to annotate it, it is still that exit)
+    x, seen = e, 0
+    while x is not None and seen < 20:
+        if isinstance(x, BadNotesBase): return "BadNotes"
+        x, seen = (x.__context__ or x.__cause__), seen + 1
+    return type(e).__name__
 def A(n): return np.broadcast_to(np.float32(0), (n,))
 def obs(i): LOG.append((i, "obs", TRANSCRIPT()))
 def chk(i, name, size):
@@ -172,12 +185,17 @@ class Gen:
         self.node_obs(ind)
         if ex != "return":
             self.emit(ind, RAISE[ex])
-            return {"Exception": "ValueError", "KeyboardInterrupt": "KI", "GeneratorExit": "GeneratorExit", "SystemExit": "SE"}[ex]
+            return {"Exception": "ValueError", "KeyboardInterrupt": "KI", "GeneratorExit": "GeneratorExit", "SystemExit": "SE", "BadNotes": "BadNotes"}[ex]
         return None
 
     def call_site(self, ind, i, callsrc, prop, depth, extra_except=None):
         """emit the call. Usually wrapped in try/except that logs the outcome; sometimes
         (inside another construct) left bare so that the exception unwinds several contexts."""
+        if depth > 0 and self.rng.random() < 0.15 and "\n" not in callsrc:
+            # the call is made by code compiled on the fly while the enclosing call is open (exec / eval of a
+            # snippet, a lazy import, a debugger prompt): its frame is module-level code, the scopes are the same
+            callsrc = f"exec(compile({callsrc!r}, '<jtv-exec>', 'exec'), globals(), locals())"
+            self.counts["calls_made_by_exec_inside_an_open_call"] = self.counts.get("calls_made_by_exec_inside_an_open_call", 0) + 1
         bare = depth > 0 and self.rng.random() < 0.3
         if bare:
             self.emit(ind, callsrc)
@@ -191,7 +209,7 @@ class Gen:
             self.emit(ind, f"except {extra_except}:")
             self.emit(ind + 1, f'LOG.append(({i}, "done"))')
         self.emit(ind, "except BaseException as e:")
-        self.emit(ind + 1, f'LOG.append(({i}, "exc", type(e).__name__))')
+        self.emit(ind + 1, f'LOG.append(({i}, "exc", EXCNAME(e)))')
         self.expected.append((i, "done") if prop is None else (i, "exc", prop))
         self.node_obs(ind)
         return None
@@ -344,7 +362,7 @@ class Gen:
                 return prop
             self.emit(ind + 1, f'LOG.append(({i}, "done"))')
             self.emit(ind, "except BaseException as e:")
-            self.emit(ind + 1, f'LOG.append(({i}, "exc", type(e).__name__))')
+            self.emit(ind + 1, f'LOG.append(({i}, "exc", EXCNAME(e)))')
             self.expected.append((i, "done") if prop is None else (i, "exc", prop))
             self.node_obs(ind)
             return None
